@@ -159,11 +159,15 @@ func (f *Formatter) formatComments(comments ast.Comments, sep string, level int,
 			buf.WriteString("\n")
 		}
 		// #FASTLY macros are not indented
-		if !strings.HasPrefix(comments[i].String(), "#FASTLY") {
+		isMacro := strings.HasPrefix(comments[i].String(), "#FASTLY")
+		if !isMacro {
 			buf.WriteString(f.indent(level))
 		}
-		switch f.conf.CommentStyle {
-		case config.CommentStyleSharp, config.CommentStyleSlash:
+		switch {
+		// and keep their marker, "//FASTLY recv" is no longer a macro
+		case isMacro:
+			buf.WriteString(comments[i].String())
+		case f.conf.CommentStyle == config.CommentStyleSharp, f.conf.CommentStyle == config.CommentStyleSlash:
 			r := '#' // default as sharp style comment
 			if f.conf.CommentStyle == config.CommentStyleSlash {
 				r = '/'
